@@ -327,7 +327,7 @@ class C04(Prop):
                                      "{mm} = 'A\nB'", "{m1} = 'first\n{m1} second\n'", "{mm?} = 'A\n\nB'", gen.definition_line(rng)])
                 lines.insert(rng.randrange(len(lines) + 1), '\n.%s\n%s\n' % (opt, blockk))
             mode = rng.choice([m for m in range(1, 16)])
-            yield {'preamble': pre, 'untrusted': {'src': clean('\n'.join(lines)), 'safeMode': mode, 'callback': True},
+            yield {'preamble': pre, 'abandon': rng.random() < 0.1, 'untrusted': {'src': clean('\n'.join(lines)), 'safeMode': mode, 'callback': True},
                    'probe': {'src': clean(gen.document(rng, 1, 2)), 'safeMode': rng.choice([0, mode]), 'callback': True}}
 
     def execute_cli(self, case, ctx, res):
@@ -377,6 +377,23 @@ class C04(Prop):
             res.count('preamble_not_ok')
             return
         before = ctx.impl.state()
+        if case.get('abandon'):
+            # the host gives up at the first diagnostic (its callback raises): whatever the untrusted render had done by then, the
+            # tables are still the trusted ones (implementation only: the model has no counterpart of an abandoned call)
+            u = case['untrusted']
+            a = ctx.impl.render(u['src'] + '\n\n{no-such-macro} .-specials\n\n..\nunterminated', safeMode=u['safeMode'], abort=True)
+            res.count('abandoned' if a[0] == 'aborted' else 'abandon_completed')
+            after = ctx.impl.state()
+            res.oracle_checks += 1
+            names = {1: 'htmlReplacement', 3: 'quote definitions', 4: 'replacement definitions', 5: 'delimited block definitions'}
+            if not (u['safeMode'] & 8):
+                names[6] = 'macro definitions'
+            for k, name in names.items():
+                if before[k] != after[k]:
+                    res.violation('an abandoned untrusted render (safe mode %d) changed the %s' % (u['safeMode'], name), case,
+                                  [short(before[k]), short(after[k])])
+                    return
+            return
         o2, m2, ok = run_session(ctx, [case['untrusted']], res, case, fresh=False)
         if not ok:
             res.count('untrusted_not_ok')
@@ -674,6 +691,20 @@ class C16(Prop):
                 s2 = '\n\n'.join(rng.sample(pieces, rng.randint(1, 3)))
                 yield {'kind': 'escapes', 'a': s2, 'b': s2, 'safeMode': rng.choice([0, 0, 3, 9, 11])}
                 continue
+            if rng.random() < 0.1:
+                # "each replaced element is restored exactly once and in order", also when the element renders to nothing under the
+                # mode (a dropped tag, a skipped anchor, an empty replacement) and stands where its verbatim text is wanted
+                el = rng.choice(['<b>', '</i>', '<!-- c -->', '<<#a1>>', '<br>', 'TODO'])
+                q = rng.choice(['`', '``'])
+                words = ['alpha', 'beta', 'Zed']
+                w1, w2, w3 = (rng.choice(words) for _ in range(3))
+                head = "/\\bTODO\\b/ = ''\n\n" if el == 'TODO' else ''
+                md = rng.choice([0, 1, 2, 4, 5, 9, 13, 15]) if el != 'TODO' else 0
+                esc = lambda t: t.replace('&', '&amp;').replace('>', '&gt;').replace('<', '&lt;')      # noqa: E731
+                src2 = head + '%s %s%s %s %s%s %s' % (w1, q, el, w2, el, q, w3)
+                yield {'kind': 'restored-once', 'a': src2, 'b': src2, 'safeMode': md,
+                       'expect': '<p>%s <code>%s %s %s</code> %s</p>' % (w1, esc(el), w2, esc(el), w3)}
+                continue
             if rng.random() < 0.5:
                 enc = encode_terminators(rng, src.split('\n'))
                 if enc is None:
@@ -702,6 +733,10 @@ class C16(Prop):
             return
         if any(ord(c) <= 2 for c in ob[0][1]):
             res.violation('reserved code point in the output', case, short(ob[0][1]))
+            return
+        if case.get('expect') is not None and ob[0][1] != case['expect']:
+            res.violation('a replaced element inside a code quote was not restored exactly once, in order', case,
+                          {'got': ob[0][1], 'expected': case['expect']})
             return
         if '\n' in case['a'] and ob[0][1].count('<') > 2:
             res.nontrivial(case['b'])
